@@ -40,7 +40,7 @@ var sibFamilies = []sibFamily{
 	{"json-decode-int-narrow", []string{"C02"}, []string{"json.(decoder).decodeInt8", "json.(decoder).decodeInt16", "json.(decoder).decodeInt32"}},
 	{"json-decode-uint-narrow", []string{"C02"}, []string{"json.(decoder).decodeUint8", "json.(decoder).decodeUint16", "json.(decoder).decodeUint32"}},
 	{"json-decode-int-wide", []string{"C02"}, []string{"json.(decoder).decodeInt64", "json.(decoder).decodeInt", "json.(decoder).decodeUint64", "json.(decoder).decodeUint", "json.(decoder).decodeUintptr"}},
-	{"json-decode-float", []string{"C02"}, []string{"json.(decoder).decodeFloat64", "json.(decoder).decodeFloat32"}},
+	{"json-decode-float", []string{"C02", "C14"}, []string{"json.(decoder).decodeFloat64", "json.(decoder).decodeFloat32"}},
 	{"json-decode-map-string", []string{"C02"}, []string{"json.(decoder).decodeMapStringString", "json.(decoder).decodeMapStringInterface", "json.(decoder).decodeMapStringRawMessage", "json.(decoder).decodeMapStringBool", "json.(decoder).decodeMapStringStringSlice"}},
 	{"json-encode-map-string", []string{"C01", "C14"}, []string{"json.(encoder).encodeMapStringString", "json.(encoder).encodeMapStringRawMessage", "json.(encoder).encodeMapStringBool", "json.(encoder).encodeMapStringStringSlice"}},
 	{"json-encode-int", []string{"C01"}, []string{"json.(encoder).encodeInt8", "json.(encoder).encodeInt16", "json.(encoder).encodeInt32", "json.(encoder).encodeInt64", "json.(encoder).encodeInt"}},
